@@ -8,5 +8,11 @@ PROPS["C08"] = dict(
     assumptions=[SC_NOTE],
     runs=[
         run("value", "c08_rc", "attr_value", "rc", dict(procs=4, cases=6000), dict(procs=8, cases=60000)),
+        run("series", "c08_rc", "instrument_series", "rc", dict(procs=4, cases=4000), dict(procs=8, cases=40000)),
+        run("limits", "c08_rc", "storage_limits", "rc", dict(procs=4, cases=4000), dict(procs=8, cases=40000)),
+        run("default-limit", "c08_rc", "provider_default_limit", "rc", dict(procs=3, cases=100), dict(procs=6, cases=600), max_size=40),
+        run("f9-witness", "c08_rc", "f9_witness", "rc", None, None),
+        run("f10-witness", "c08_rc", "f10_witness", "rc", None, None),
+        run("f11-witness", "c08_rc", "f11_witness", "rc", None, None),
     ],
 )
